@@ -5,6 +5,7 @@ import (
 
 	"gitlab.com/aquachain/aquachain/common"
 	"gitlab.com/aquachain/aquachain/core/state"
+	"gitlab.com/aquachain/aquachain/crypto"
 	"gitlab.com/aquachain/aquachain/core/types"
 	"gitlab.com/aquachain/aquachain/params"
 	"pgregory.net/rapid"
@@ -28,7 +29,7 @@ func Intrinsic(data []byte, creation bool) uint64 {
 
 // TxKinds lists the transaction classes DrawTx produces.
 var TxKinds = []string{"transfer", "transfer-new", "transfer-precompile", "store-set", "store-clear", "multistore", "multiclear", "emit",
-	"reverter", "oog", "invalid", "forward", "forward-nested", "creator", "create", "create-failing", "suicide", "recursor", "bouncer", "random-code", "call-then-fail", "blockhash", "blockhash"}
+	"reverter", "oog", "invalid", "forward", "forward-nested", "creator", "create", "create-failing", "suicide", "recursor", "bouncer", "random-code", "call-then-fail", "blockhash", "blockhash", "call-loop", "call-loop", "touch-created", "touch-created"}
 
 // TxCtx is what the transaction generator may look at.
 type TxCtx struct {
@@ -84,12 +85,21 @@ func drawEmit(t *rapid.T) []byte {
 	return EmitData(n, tp, rapid.SampledFrom(TopicPool).Draw(t, "logdata"))
 }
 
+// salted makes a runtime code unique (unreachable bytes behind a STOP), so that its
+// code blob is not one the genesis contracts already put into the database.
+func salted(t *rapid.T, rt []byte) []byte {
+	if rapid.IntRange(0, 3).Draw(t, "plaincode") == 0 {
+		return rt
+	}
+	return append(append(append([]byte{}, rt...), STOP), rapid.SliceOfN(rapid.Byte(), 3, 3).Draw(t, "codesalt")...)
+}
+
 func drawInitCode(t *rapid.T) []byte {
 	switch rapid.IntRange(0, 5).Draw(t, "initkind") {
 	case 0:
-		return InitCode(codeStore())
+		return InitCode(salted(t, codeStore()))
 	case 1:
-		return InitCode(codeSuicide())
+		return InitCode(salted(t, codeSuicide()))
 	case 2: // constructor that stores and logs, then returns code
 		a := NewAsm().Push(9).Push(1).Op(SSTORE).Push(0).Push(0).Op(LOG0)
 		return InitCodePrefix(a.Bytes(), codeBouncer())
@@ -176,7 +186,7 @@ func DrawTx(t *rapid.T, c TxCtx) (*types.Transaction, string) {
 		to, data = addr(AddrCreator), Cat(Word(uint64(rapid.IntRange(0, 1000).Draw(t, "endow"))), drawInitCode(t))
 		extra += 150000
 	case "create":
-		data, value = InitCode(rapid.SampledFrom([][]byte{codeStore(), codeSuicide(), codeBouncer(), codeEmit()}).Draw(t, "rt")), smallValue()
+		data, value = InitCode(salted(t, rapid.SampledFrom([][]byte{codeStore(), codeSuicide(), codeBouncer(), codeEmit()}).Draw(t, "rt"))), smallValue()
 		extra += 100000
 	case "create-failing":
 		data, value = drawInitCode(t), smallValue()
@@ -195,6 +205,34 @@ func DrawTx(t *rapid.T, c TxCtx) (*types.Transaction, string) {
 		// stores and logs BLOCKHASH(number - k): the result depends on the block's own ancestry
 		to, data = addr(AddrBlockhash), Word(uint64(rapid.SampledFrom([]int{0, 1, 1, 2, 2, 3, 5, 200, 256, 257, 300}).Draw(t, "back")))
 		extra += 30000
+	case "call-loop":
+		// repeated value-bearing CALL/CALLCODE (stipend and value-transfer pricing, many times in one frame), then more work
+		target := rapid.SampledFrom([]common.Address{fresh[0], fresh[1], fresh[2], FreshMiners[0], Keys[0].Addr, AddrBouncer, AddrStore, AddrEmptyAcct}).Draw(t, "looptarget")
+		v := int64(rapid.SampledFrom([]int{0, 1, 1, 1, 1000}).Draw(t, "loopvalue"))
+		count := rapid.SampledFrom([]int{1, 1, 2, 14, 15, 20, 40}).Draw(t, "loopcount")
+		igas := uint64(rapid.SampledFrom([]int{0, 0, 0, 2300, 30000}).Draw(t, "loopgas"))
+		to, data = addr(AddrLooper), LoopData(rapid.Bool().Draw(t, "loopcallcode"), target, big.NewInt(v), uint64(count), igas)
+		value = big.NewInt(v * int64(count))
+		extra += 60000 + uint64(count)*(12000+igas)
+	case "touch-created":
+		// a contract that an earlier transaction of one of the senders deployed: called again in a later block
+		var created []common.Address
+		for _, kk := range keys {
+			for n := uint64(0); n < c.State.GetNonce(kk.Addr) && n < 12; n++ {
+				if a := crypto.CreateAddress(kk.Addr, n); c.State.GetCodeSize(a) > 0 {
+					created = append(created, a)
+				}
+			}
+		}
+		if len(created) == 0 {
+			data, value = InitCode(salted(t, rapid.SampledFrom([][]byte{codeStore(), codeBouncer(), codeEmit()}).Draw(t, "rt"))), smallValue()
+			extra += 100000
+			kind = "create"
+			break
+		}
+		to, value = addr(rapid.SampledFrom(created).Draw(t, "createdtarget")), smallValue()
+		data = Cat(Word(uint64(rapid.IntRange(0, 3).Draw(t, "slot"))), Word(uint64(rapid.IntRange(0, 2).Draw(t, "val"))))
+		extra += 60000
 	case "recursor":
 		to = addr(AddrRecursor)
 		extra += 150000
@@ -212,7 +250,8 @@ func DrawTx(t *rapid.T, c TxCtx) (*types.Transaction, string) {
 			return nil, kind
 		}
 	}
-	price := big.NewInt(int64(rapid.SampledFrom([]int{0, 1, 2, 1_000_000_000}).Draw(t, "price")))
+	// (the large prices put gas x price on either side of 2^64 wei for the gas limits drawn here)
+	price := big.NewInt(int64(rapid.SampledFrom([]int{0, 1, 2, 1_000_000_000, 1_000_000_000, 1_000_000_000_000, 92_233_720_368_548, 878_422_366_837_000, 1_000_000_000_000_000}).Draw(t, "price")))
 	bal := c.State.GetBalance(k.Addr)
 	fee := new(big.Int).Mul(price, new(big.Int).SetUint64(gas))
 	if fee.Cmp(bal) > 0 {
